@@ -13,7 +13,7 @@ ERRS = fsm.ERRS
 NAMES_ENV = [b"A", b"B.c", b".x", b"\xc3\xa9", b"\xff\x80", b"A B", b"=", b"PATH", b"A.append", b"x.y.z", b"-"]
 VALUES = [b"", b"v", b"a:b", b"\n", b"\x00\xff", b" v ", b"multi\nline\n"]
 # process types may contain dots, dashes and underscores; "worker.high" / "worker.low" / "worker" share a stem
-PROCS = [b"web", b"worker", b"worker.high", b"worker.low", b"w-1_x"]
+PROCS = [b"web", b"worker", b"worker.high", b"worker.low", b"w-1_x", b"worker.default", b"web.override"]     # (process types may end like a file suffix)
 SUFFIXES = [b".append", b".default", b".delim", b".override", b".prepend"]
 
 
@@ -185,7 +185,8 @@ class C03:
             rel = lambda i: dict(i, v=list(bytes(i["v"]).replace(b"$ROOT", b"")))
             s = "(SWrite %s)" % cq_list([c04mod.cq_ins(rel(i)) for i in st["ins"]])
         elif st["op"] == "read":
-            s = "(SRead %s)" % cq_list(["(%s, %s)" % (c04mod.cq_scope(p["scope"]), c04mod.cq_pairs(p["env0"])) for p in st["probes"]])
+            rel0 = lambda e: [[k, list(bytes(v).replace(b"$ROOT", b""))] for k, v in e]
+            s = "(SRead %s)" % cq_list(["(%s, %s)" % (c04mod.cq_scope(p["scope"]), c04mod.cq_pairs(rel0(p["env0"]))) for p in st["probes"]])
         else:
             s = "SReadWrite"
         r = ob["res"]
